@@ -88,6 +88,15 @@ def install(world):
         if isinstance(a, SVal) and isinstance(b, SVal):
             world.trusted_used.add('issubclass(opaque, opaque) '
                                    'uninterpreted')
+            # arg 1 must be a class; arg 2 a class or a tuple of classes
+            if not it.spec:
+                if not it.branch(isinst_fn('type')(a.t)):
+                    it.raise_('TypeError', 'issubclass() arg 1 must be a '
+                              'class', node=node)
+                if not it.branch(z3.Or(isinst_fn('type')(b.t),
+                                       isinst_fn('tuple')(b.t))):
+                    it.raise_('TypeError', 'issubclass() arg 2 must be a '
+                              'class or tuple of classes', node=node)
             return SBool(uf('py.issubclass', S.Val, S.Val, z3.BoolSort())(
                 a.t, b.t))
         raise Unsupported('issubclass(%r, %r)' % (a, b))
